@@ -33,6 +33,7 @@ COMBINATORS = {
     "anyhow::Context::context", "anyhow::Context::with_context",
     "core::option::Option::<T>::unwrap_or_else",   # Option<Result<..>>: None => fallback closure returns the Result
     "core::option::Option::<T>::map",
+    "core::option::Option::<core::result::Result<T, E>>::transpose", "core::result::Result::<core::option::Option<T>, E>::transpose",
     "core::convert::Into::into", "core::convert::From::from",
 }
 UNWRAPS = {
@@ -79,29 +80,41 @@ def span_excluded(sp):
 
 
 def ret_locals(fn):
-    """Locals whose value flows by plain moves into _0."""
+    """Locals whose value flows into _0: by plain moves, wrapped in Some(..), or -- as the error -- through the
+    `?` desugaring (Try::branch -> Break payload -> from_residual), which is how an Err built in an inlined
+    helper reaches the caller's return value."""
     du = defuse(fn)
-    out = {0}
-    work = [0]
+    out = {0} | set(fn.raw.get("inlined_rets", []))
+    work = list(out)
+
+    def add(x):
+        if x is not None and x not in out:
+            out.add(x)
+            work.append(x)
+
     while work:
         l = work.pop()
         for site, whole in du.defs.get(l, []):
             if site.is_term:
+                n = site.node
+                o = callee_orig(n)
+                if o in (FROM_RESIDUAL, TRY_BRANCH) and n["args"]:
+                    add(op_local(n["args"][0]))
                 continue
             rv = site.node["rv"]
             if rv["k"] == "use":
-                s = op_local(rv["op"])
                 p = op_place(rv["op"])
-                if s is not None and not p.get("p") and s not in out:
-                    out.add(s)
-                    work.append(s)
+                if p is None:
+                    continue
+                pr = [e for e in p.get("p", []) if e != "deref"]
+                if not pr:
+                    add(p["l"])
+                elif len(pr) == 2 and isinstance(pr[0], dict) and pr[0].get("dc") in ("Break", "Err"):
+                    add(p["l"])
             elif rv["k"] == "agg" and rv.get("adt") in ("core::option::Option",):
                 # Some(x) returned from a fn whose return type is Option<Result<..>>
                 for o in rv["fields"]:
-                    s = op_local(o)
-                    if s is not None and s not in out:
-                        out.add(s)
-                        work.append(s)
+                    add(op_local(o))
     return out
 
 
@@ -163,6 +176,177 @@ def _is_error_update(fn, local):
     return False
 
 
+# ---------------------------------------------------------------------------
+# Which errors of which primitive may be absorbed (everything else must fail).  This replaces site-keyed
+# allow entries for the errno/ErrorKind idioms: it is keyed by the *primitive*, so the idiom may live in any
+# function (a helper, a closure, a differently named wrapper) without a report, while absorbing any *other*
+# error of the same call is still reported.
+ERRNO = {"NXIO": 6, "NOSYS": 38, "PERM": 1, "XDEV": 18, "OPNOTSUPP": 95, "EOPNOTSUPP": 95, "INVAL": 22, "TXTBSY": 26,
+         "NOTSUP": 95}
+TOLERATED = {
+    "std::io::Read::read": ({"Interrupted"}, "EINTR: the read is retried"),
+    "rustix::fs::fd::seek": ({6}, "ENXIO from SEEK_DATA/SEEK_HOLE: no more data"),
+    "rustix::fs::copy_file_range::copy_file_range": ({38, 1, 18}, "ENOSYS/EPERM/EXDEV: kernel copy unavailable, user-space fallback"),
+    "libc::unix::linux_like::linux::ioctl#FIEMAP": ({95}, "EOPNOTSUPP: no extent maps, whole-file copy"),
+    "libc::unix::linux_like::linux::ioctl#FICLONE": ({95, 22, 18, 26}, "clone unsupported for this pair"),
+    "std::path::Path::metadata": ({"NotFound"}, "ENOENT answers an existence question"),
+    "std::path::Path::symlink_metadata": ({"NotFound"}, "ENOENT answers an existence question"),
+    "std::fs::metadata": ({"NotFound"}, "ENOENT answers an existence question"),
+    "std::fs::symlink_metadata": ({"NotFound"}, "ENOENT answers an existence question"),
+}
+# failures the property itself exempts, wherever the call is made
+EXEMPT_CALLEES = {
+    "libfs::common::copy_owner": "C04 exempts ownership: documented warning when chown is not permitted",
+    "std::os::unix::fs::fchown": "C04 exempts ownership",
+    "libfs::common::copy_xattr": "C04 exempts extended attributes: failure is a warning by design",
+    "xattr::FileExt::set_xattr": "C04 exempts extended attributes",
+}
+_current = {"prim": None, "term": None, "fn": None}
+
+
+def _tolerated():
+    prim = _current.get("prim")
+    t = _current.get("term")
+    f = _current.get("fn")
+    if prim in STATUS_INT_CALLS and t is not None and f is not None:
+        import p_role
+        prim = prim + ("#FICLONE" if p_role._is_ficlone(f, t) else "#FIEMAP")
+    return TOLERATED.get(prim)
+
+
+def _ident_matches(ident, tol):
+    if isinstance(ident, (set, frozenset)):
+        # the edge is taken when the error is any member: it is a tolerated edge only if every member is tolerated
+        return bool(ident) and all(_ident_matches(i, tol) for i in ident)
+    if ident in tol:
+        return True
+    if isinstance(ident, int):
+        return (65536 - ident) in tol      # rustix keeps -errno in a u16
+    if isinstance(ident, str):
+        return ERRNO.get(ident) in tol
+    return False
+
+
+def error_test_edges(fn, region):
+    """Edges inside `region` taken exactly when the error equals a constant: [(u, v, identity)].
+    identity is an int (errno / raw code) or a name (ErrorKind variant, Errno constant)."""
+    import p_kinds
+    du = defuse(fn)
+    proms = fn.raw.get("promoted", [])
+    out = []
+    for u in sorted(region):
+        t = fn.blocks[u]["term"]
+        if t["k"] != "switch":
+            continue
+        ty = t.get("op_ty")
+        if ty == "bool":
+            l = op_local(t["op"])
+            idents, flip = set(), 0
+            work, seen = [l], set()
+            while work:
+                x = work.pop()
+                if x is None or x in seen:
+                    continue
+                seen.add(x)
+                for site, whole in du.defs.get(x, []):
+                    n = site.node
+                    if site.is_term:
+                        o = callee_orig(n)
+                        if o in ("core::cmp::PartialEq::eq", "core::cmp::PartialEq::ne"):
+                            flip ^= 1 if o.endswith("::ne") else 0
+                            for a in n["args"]:
+                                idents |= _const_idents(fn, a, proms)
+                        elif o in ("core::slice::<impl [T]>::contains", "core::iter::traits::iterator::Iterator::any"):
+                            idents |= _const_idents(fn, n["args"][0], proms)
+                    elif n["rv"]["k"] == "use":
+                        work.append(op_local(n["rv"]["op"]))
+                    elif n["rv"]["k"] == "un" and n["rv"]["op"] == "Not":
+                        flip ^= 1
+                        work.append(op_local(n["rv"]["a"]))
+                    elif n["rv"]["k"] == "bin" and n["rv"]["op"] in ("Eq", "Ne"):
+                        flip ^= 1 if n["rv"]["op"] == "Ne" else 0
+                        for o_ in (n["rv"]["a"], n["rv"]["b"]):
+                            idents |= _const_idents(fn, o_, proms)
+            if not idents:
+                continue
+            explicit = {int(v): tb for v, tb in t["targets"]}
+            true_t = t["otherwise"] if 0 in explicit else explicit.get(1)
+            false_t = explicit.get(0, t["otherwise"])
+            if flip:
+                true_t, false_t = false_t, true_t
+            out.append((u, true_t, frozenset(idents)))
+        elif ty not in ("isize", None) and not ty.startswith("core::") :
+            bytarget = {}
+            for val, tb in t["targets"]:
+                if tb != t["otherwise"]:
+                    bytarget.setdefault(tb, set()).add(int(val))
+            for tb, vals in bytarget.items():
+                out.append((u, tb, frozenset(vals)))
+    return out
+
+
+def _const_idents(fn, operand, proms, depth=0):
+    """Constants an operand denotes (through refs, moves and promoteds): ints, enum variant names, names of
+    associated constants (`Errno::NXIO`)."""
+    du = defuse(fn)
+    res = set()
+
+    def from_const(c):
+        if "v" in c and not c.get("ty", "").startswith("bool"):
+            try:
+                res.add(int(c["v"]))
+            except (TypeError, ValueError):
+                pass
+        if "unevaluated" in c:
+            res.add(c["unevaluated"].split("::")[-1])
+        if "promoted" in c and c["promoted"] < len(proms):
+            for s in proms[c["promoted"]]:
+                rv = s["rv"]
+                if rv["k"] == "agg" and rv.get("ak") == "adt":
+                    if rv["variant"] not in ("Some", "Ok"):
+                        res.add(rv["variant"])
+                    for f_ in rv["fields"]:
+                        if "c" in f_:
+                            from_const(f_["c"])
+                elif rv["k"] == "agg" and rv.get("ak") in ("array", "tuple"):
+                    for f_ in rv["fields"]:
+                        if "c" in f_:
+                            from_const(f_["c"])
+                elif rv["k"] == "use" and "c" in rv["op"]:
+                    from_const(rv["op"]["c"])
+
+    c = operand.get("c")
+    if c is not None:
+        from_const(c)
+    work = [op_local(operand)]
+    seen = set()
+    while work:
+        x = work.pop()
+        if x is None or x in seen or len(seen) > 12:
+            continue
+        seen.add(x)
+        for site, whole in du.defs.get(x, []):
+            if site.is_term:
+                continue
+            rv = site.node["rv"]
+            if rv["k"] == "use":
+                if "c" in rv["op"]:
+                    from_const(rv["op"]["c"])
+                else:
+                    work.append(op_local(rv["op"]))
+            elif rv["k"] == "ref":
+                work.append(rv["pl"]["l"])
+            elif rv["k"] == "agg" and rv.get("ak") == "adt":
+                if rv["variant"] not in ("Some", "Ok"):
+                    res.add(rv["variant"])
+                for f_ in rv["fields"]:
+                    if "c" in f_:
+                        from_const(f_["c"])
+                    else:
+                        work.append(op_local(f_))
+    return res
+
+
 class Classified:
     def __init__(self, cls, detail="", witness=None, ok=None):
         self.cls, self.detail, self.witness = cls, detail, witness
@@ -196,6 +380,16 @@ def check_err_arm(fn, switch_bb, err_target, matched_locals):
     without = cfg.reach([0], blocked_edges=[(switch_bb, err_target)])
     arm = [b for b in cfg.reach([err_target]) if b not in without]
     some_signal = any(b in sig for b in arm)
+    # semantic tolerance: assuming the error is none of the codes this primitive may absorb, must every path fail?
+    tol = _tolerated()
+    if tol is not None:
+        edges = error_test_edges(fn, set(arm) | {err_target})
+        blocked = [(u, v) for (u, v, ident) in edges if _ident_matches(ident, tol[0])]
+        if blocked:
+            r2 = cfg.reach([err_target], blocked=set(sig.keys()), blocked_edges=blocked)
+            if not any(b in r2 for b in cfg.returns) and switch_bb not in r2:
+                absorbed = sorted(set(str(x) for (u, v, i) in edges if _ident_matches(i, tol[0]) for x in i))
+                return True, "absorbs only %s (%s); every other error fails" % (absorbed, tol[1]), None
     wit = dict(err_arm_entry="bb%d" % err_target,
                reaches=("return bb%d" % bad_ret[0]) if bad_ret else ("loop back to bb%d" % switch_bb),
                shape="swallow-some" if some_signal else "swallow-all",
@@ -388,8 +582,12 @@ def run(fx, crates=None, cfgname="A"):
     obs = []
     sites = list(fallible_sites(fx, crates))
     counters = {}
+    always_reports = _always_reporting_fns(fx)
     for f, bi, t, kind in sites:
         o = callee_orig(t) or callee_path(t) or "<indirect>"
+        fo = f
+        f = _view(fx, f)           # same block/local indices, workspace helpers inlined
+        _current.update(prim=o, term=t, fn=fo)
         ordk = (f.path, o)
         ordinal = counters.get(ordk, 0)
         counters[ordk] = ordinal + 1
@@ -418,6 +616,18 @@ def run(fx, crates=None, cfgname="A"):
         bad = [c for c in cl if not c.ok]
         # an instance is satisfied when every consuming use is acceptable
         ok = bool(good) and not bad
+        if not ok:
+            why = None
+            if o in EXEMPT_CALLEES or callee_path(t) in EXEMPT_CALLEES:
+                why = EXEMPT_CALLEES.get(o) or EXEMPT_CALLEES.get(callee_path(t))
+            elif o == SEND and len(t["args"]) > 1 and op_local(t["args"][1]) is not None and \
+                    _is_error_update(fo, op_local(t["args"][1])):
+                why = "this is the delivery of an error report itself: it can only fail when the receiver is gone"
+            elif callee_path(t) in always_reports:
+                why = "this call delivers an error report: it can only fail when the receiver is gone"
+            if why and all(c.cls in ("HANDLED-LOCALLY", "DISCARDED") for c in bad):
+                cl = good + [Classified("EXEMPT", why, ok=True)]
+                good, bad, ok = cl, [], True
         what = "%s: %s" % ("/".join(sorted(set(c.cls for c in cl))), "; ".join(c.detail for c in cl if c.detail)[:300])
         wit = None
         if not ok:
@@ -432,6 +642,12 @@ def run(fx, crates=None, cfgname="A"):
             continue
         if not in_scope_fn(fx, f):
             continue
+        # a private helper is analysed inline in each of its callers' views (its fallible parameter is the
+        # caller's call result); closures and externally visible functions are analysed on their own
+        if not f.is_closure and not (f.raw.get("exported") or f.raw.get("reachable")) and cg_callers(fx, f.path):
+            continue
+        _current.update(prim=None, term=None, fn=f)
+        f = _view(fx, f)
         for l in range(1, f.argc + 1):
             ty = f.locals[l]["ty"]
             # closures take their arguments as a tuple in the ABI but MIR spreads them as locals
@@ -474,6 +690,36 @@ def run(fx, crates=None, cfgname="A"):
     # second Result layers: Continue payload of a `?` that is itself a Result (JoinHandle::join()??)
     obs.extend(_nested_layers(fx, crates, cfgname))
     return obs
+
+
+def _view(fx, f):
+    import views
+    try:
+        return views.view(fx, f.path, depth=3) or f
+    except Exception:
+        return f
+
+
+def cg_callers(fx, path):
+    import q
+    return [c for c in q.callgraph(fx).callers.get(path, ()) if c != path]
+
+
+def _always_reporting_fns(fx):
+    """Workspace functions that send a StatusUpdate::Error on every path to their return."""
+    out = set()
+    for p, f in fx.fns.items():
+        if f.crate != "libxcp" or not in_scope_fn(fx, f):
+            continue
+        cfg = cfg_of(f)
+        sends = []
+        for bi, t in f.calls():
+            if callee_orig(t) == SEND and len(t["args"]) > 1 and op_local(t["args"][1]) is not None and \
+                    _is_error_update(f, op_local(t["args"][1])):
+                sends.append(bi)
+        if sends and cfg.returns and cfg.passes_through(sends, 0, cfg.returns):
+            out.add(p)
+    return out
 
 
 def _shape(cl):
